@@ -33,6 +33,8 @@ ORACLE_PREMISES = [
     'pydicom recognises an edited image by the ids of the pixel-describing element values (equal ids <-> equal '
     'values; the harness keeps replaced values alive so that ids are not reused)',
     'pydicom read_tag / read_UL / parse_basic_offsets parse item headers (item-level model of the encapsulated stream)',
+    'get_frames / get_frame with every apply_* transform False and an integer dtype: _CombinedPixelTransform decodes '
+    '(decode_frame) / casts only',
     'codecs (RLE, JPEG-LS, JPEG baseline) are deterministic functions of the frame bytes; '
     'pydicom.encaps.get_frame returns the fragments of frame i (eager raw path)',
 ]
@@ -1667,6 +1669,9 @@ def shrink(c):
 # the 'reader_neg' stream keeps -1 .. -n-1 in the must-reject set.
 # D105 (a lazily read image kept serving its cached pixel_array after a header edit) was found by this check
 # ('lazy_history', warm cases) and is fixed; corpus/C05/lazy_stale_after_edit.json keeps the witness in every run.
+# D108 (get_frames recognised a single-frame image by the rank of the cached array: one colour frame + warm cache ->
+# ValueError) is fixed in /repo; 'batch_order' (n = 1 colour), the 'frames' reads of history / lazy_history and the
+# cached_frames route of every codec / fixture case keep it in every run (corpus/C05/batch_single_colour_frame_warm.json).
 # No open findings.
 FINDINGS = {}
 
